@@ -188,7 +188,7 @@ def bfs_listing_facts(E: Env, K):
     return [Len(E.A(K)) == K, K >= 1]
 
 
-@contract("breadthfirst.ibft", FUNC_PARAMS, is_generator=True, props=("C06", "C07"), shards=4)
+@contract("breadthfirst.ibft", FUNC_PARAMS, is_generator=True, props=("C06", "C07"), shards=10)
 def _(c):
     E = Env(c.S, c.ct, c.args)
     S = c.S
@@ -369,7 +369,7 @@ def dfsi_set_invs(E: Env, DSk, DDk, pushed=None):
                 And(Mem(DDk, x), E.step(x, w)), Or(Mem(DDk, w), Mem(pend, w))), pair_from=("NBf@",))]
 
 
-@contract("depthfirst.idft_iterative", FUNC_PARAMS, is_generator=True, props=("C06", "C07"), shards=4)
+@contract("depthfirst.idft_iterative", FUNC_PARAMS, is_generator=True, props=("C06", "C07"), shards=6)
 def _(c):
     E = Env(c.S, c.ct, c.args)
     S = c.S
@@ -474,7 +474,7 @@ def dfr_set_facts(E: Env, out, x, V, scanned):
                 And(Mem(out, y), E.step(y, w), Or(y != x, closed_x(w))), Or(Mem(V, w), Mem(out, w))), pair_from=("NBf@",))]
 
 
-@contract("depthfirst._dft_recur", RECUR_PARAMS, is_generator=True, props=("C06", "C07"), shards=2)
+@contract("depthfirst._dft_recur", RECUR_PARAMS, is_generator=True, props=("C06", "C07"), shards=8)
 def _(c):
     E = Env(c.S, c.ct, c.args, start_key="v")
     S = c.S
@@ -549,7 +549,7 @@ def nomatch(S, seq, attrib, val, name="nothing-listed-so-far-matches"):
     return Schema(name, (Ref,), lambda x: Implies(Mem(seq, x), Not(match(S, x, attrib, val))))
 
 
-@contract("breadthfirst.bfs", SEARCH_PARAMS, props=("C08",), shards=4)
+@contract("breadthfirst.bfs", SEARCH_PARAMS, props=("C08",), shards=10)
 def _(c):
     E = search_env(c.S, c.ct, c.args)
     S = c.S
@@ -594,7 +594,7 @@ def _(L):
     return bfs_inner_inv(L, E, with_out=False, extra=lambda acc: [nomatch(L.st, acc, attrib, val)])
 
 
-@contract("depthfirst.dfs_iterative", SEARCH_PARAMS, props=("C08",), shards=4)
+@contract("depthfirst.dfs_iterative", SEARCH_PARAMS, props=("C08",), shards=5)
 def _(c):
     E = search_env(c.S, c.ct, c.args)
     S = c.S
@@ -695,7 +695,7 @@ def dfm_defs(E: Env, S, attrib, val, prefix, x, V, whole=None, elem=None):
     return out, dfm, dffm
 
 
-@contract("depthfirst._dfs_recur", "uni:Universe?, v:Vertex, visited:dict, attrib:str, val:any", props=("C08",), shards=2)
+@contract("depthfirst._dfs_recur", "uni:Universe?, v:Vertex, visited:dict, attrib:str, val:any", props=("C08",), shards=5)
 def _(c):
     E = Env(c.S, c.ct, c.args, start_key="v")
     S = c.S
